@@ -149,10 +149,24 @@ type AcceptStep struct {
 	Conn      net.Conn // non-nil: return this connection
 	Temporary bool     // return a temporary net.Error
 	Permanent bool     // return a permanent error
+	Err       error    // the error to return for Temporary / Permanent (default: tempErr{} / ErrPermanent)
 	Before    func()   // run inside Accept before returning (e.g. call Shutdown to land it between Accept and registration)
 }
 
 type tempErr struct{}
+
+// TempTimeoutErr is temporary AND a timeout; TimeoutOnlyErr is a timeout that is NOT temporary (so: permanent)
+type TempTimeoutErr struct{}
+
+func (TempTimeoutErr) Error() string   { return "temporary accept timeout" }
+func (TempTimeoutErr) Timeout() bool   { return true }
+func (TempTimeoutErr) Temporary() bool { return true }
+
+type TimeoutOnlyErr struct{}
+
+func (TimeoutOnlyErr) Error() string   { return "accept deadline exceeded" }
+func (TimeoutOnlyErr) Timeout() bool   { return true }
+func (TimeoutOnlyErr) Temporary() bool { return false }
 
 func (tempErr) Error() string   { return "temporary accept failure" }
 func (tempErr) Timeout() bool   { return false }
@@ -203,9 +217,15 @@ func (l *Listener) Accept() (net.Conn, error) {
 			return s.Conn, nil
 		case s.Temporary:
 			l.Log.Add("accept:temporary")
+			if s.Err != nil {
+				return nil, s.Err
+			}
 			return nil, tempErr{}
 		default:
 			l.Log.Add("accept:permanent")
+			if s.Err != nil {
+				return nil, s.Err
+			}
 			return nil, ErrPermanent
 		}
 	}
